@@ -210,7 +210,11 @@ def rejections(prog, r, mo, sets):
     c = r.get("compile") or {}
     if "ok" not in c:
         msg = c.get("err") or c.get("panic") or str(c)
-        if not (msg.startswith("validation failed") and r.get("validate")):
+        # applicability of the one-call API: it cannot supply pipeline constants, so a module with an
+        # override that has no default value is not expressible through it (explicit rule, this class only)
+        needs_host_constant = ("override_without_default" in set(r.get("features") or [])
+                               and L.err_class(msg) == "no value provided and no default initializer")
+        if not (msg.startswith("validation failed") and r.get("validate")) and not needs_host_constant:
             out.append(("compile:" + ("panic:" if "panic" in c else "") + L.err_class(msg),
                         "naga.Compile (one-call API, validation enabled) rejects: " + msg, None))
     feats = set(r.get("features") or [])
